@@ -40,6 +40,11 @@ func MockDiff(at time.Duration) {
 }
 
 func Now() time.Time {
+	if simEnabled {
+		if t, ok := simNow(); ok {
+			return t
+		}
+	}
 	if !inTest {
 		return time.Now()
 	}
